@@ -120,7 +120,7 @@ Proof.
   - cbn [app]. rewrite jcai_cons, Hl. reflexivity.
   - cbn [app]. rewrite !jcai_cons.
     destruct (jlong s).
-    + destruct ((0 <? cnt)%N && beq en (jen s)).
+    + destruct ((0 <? cnt)%N && (beq en (jen s) && (jz s =? cnt + 1)%N)).
       * rewrite IH. destruct (jcai t en (cnt + 1)%N); reflexivity.
       * destruct (jshort s); [reflexivity|]. destruct (jstart s); rewrite IH.
         -- destruct (jcai t (jen s) 1%N); reflexivity.
@@ -266,3 +266,15 @@ Proof.
     rewrite (jpeg_remove_bytes l Hw Hok). cbn [rbind].
     apply IH; [apply gremove_jwf; assumption| apply (okl_remove _ _ _ jpeg_laws); assumption| exact Ht].
 Qed.
+
+(* every valid JPEG satisfies the side condition of the region theorem *)
+Lemma jwf_len_ok l : jwf l -> Forall jseg_len_ok l.
+Proof.
+  intros (init & last & -> & Hi & Hl). apply Forall_app. split.
+  - eapply Forall_impl; [|exact Hi]. intros s (He & _ & _ & _ & H). unfold jseg_len_ok.
+    destruct (has_length (jm s)); [left; reflexivity| right; split; assumption].
+  - constructor; [|constructor]. left. destruct Hl as (Hm & _). rewrite Hm. reflexivity.
+Qed.
+
+Lemma strip_len_ok l : Forall jseg_len_ok l -> Forall jseg_len_ok (strip jpeg_format l).
+Proof. intro H. unfold strip. apply select_forall. exact H. Qed.
